@@ -118,9 +118,10 @@ def gen_op(rng, inflight, fair, scn, restarts):
         return {"op": "poll", "code": "OK", "reports": reports}
     r = rng.random()
     code = "OK"
-    if r < 0.05:
+    nj, er = (0.2, 0.35) if scn.get("faulty") else (0.05, 0.07)
+    if r < nj:
         code = "NOJOBS"
-    elif r < 0.07:
+    elif r < er:
         code = "ERROR"
     reports = []
     for i in inflight:
@@ -161,6 +162,13 @@ def run_scenario(scn, root, rng=None, ops=None, max_ops=40, fair_from=None):
     S.install()
     g = S.build_graph(scn, root)
     n = scn["n"]
+    via = scn.get("via")
+    if via:
+        import random as _random
+        import viasched
+        S.WORLD.via = via
+        S.WORLD.via_rng = _random.Random(scn.get("via_seed", 0))
+        can_say = viasched.expressible(via)
     trace = []
     done_ops = []
     k = 0
@@ -207,6 +215,14 @@ def run_scenario(scn, root, rng=None, ops=None, max_ops=40, fair_from=None):
                 break
             restarts = None
             op = gen_op(rng, inflight, fair, scn, restarts)
+            if via and op["op"] == "poll":
+                # a state the scheduler has no word for cannot be reported: nothing is said about the job
+                op["reports"] = [[i, st if st in can_say else None] for i, st in op["reports"]]
+        if via and op["op"] == "poll":
+            # a real adapter answers in the order it was asked (the graph's own iteration order over
+            # the tracked steps), not in the order the scheduler listed the jobs
+            asked = [S.sidx(x) for x in g.in_progress]
+            op["reports"] = sorted(op["reports"], key=lambda r: asked.index(r[0]) if r[0] in asked else -1)
         o = Obs()
         o.op = op
         o.inflight_before = inflight
